@@ -49,10 +49,15 @@ type chanProd struct {
 	cap   string // buffer capacity term
 	label string
 	// consumer-side tracking
-	drained    string               // formula: producer has finished sending
-	drainedBlk *ssa.BasicBlock
 	pre        *State // state when the goroutine was started: old(...) in its channel clauses
 	allocAt    string
+}
+
+// drainedComp names the ghost state "the producer of this channel has finished
+// sending" (set by receives: a final value was received, or the channel was seen
+// closed).
+func (p *chanProd) drainedComp() string {
+	return "ChanDrained_" + sanitize(p.label) + "_" + sanitize(p.key.Name())
 }
 
 // parseChanClause handles "chan <name> yields x: e | final_if x: e | closes | sends_at_most N".
@@ -236,7 +241,7 @@ func (f *Frame) goStmt(x *ssa.Go, at string, st *State) {
 		if f.chans == nil {
 			f.chans = map[ssa.Value]*chanProd{}
 		}
-		f.chans[k] = &chanProd{key: k, fn: fn, con: con, spec: spec, names: names, pkg: fn.Pkg.Pkg, cap: f.capOf(k), label: name, drained: "false", pre: st.clone(), allocAt: st.alloc}
+		f.chans[k] = &chanProd{key: k, fn: fn, con: con, spec: spec, names: names, pkg: fn.Pkg.Pkg, cap: f.capOf(k), label: name, pre: st.clone(), allocAt: st.alloc}
 	}
 	for i, p := range fn.Params {
 		if i < len(c.Args) && isChanType(p.Type()) {
@@ -327,7 +332,7 @@ func (f *Frame) registerReturnedChan(call ssa.Value, callee *ssa.Function, argNa
 				if f.chans == nil {
 					f.chans = map[ssa.Value]*chanProd{}
 				}
-				f.chans[call] = &chanProd{key: call, fn: fn, con: con, spec: spec, names: names, pkg: fn.Pkg.Pkg, cap: capTerm, label: canonShort(callee) + "()", drained: "false", pre: pre, allocAt: allocAt}
+				f.chans[call] = &chanProd{key: call, fn: fn, con: con, spec: spec, names: names, pkg: fn.Pkg.Pkg, cap: capTerm, label: canonShort(callee) + "()", pre: pre, allocAt: allocAt}
 				vc.usedAssumptions["goroutine "+canonName(fn)+": its writes are not visible to the consumer before a receive; interleavings are not modelled (producer/consumer rule)"] = true
 			}
 		}
@@ -419,8 +424,8 @@ func (f *Frame) receiveFrom(p *chanProd, elemT types.Type, in ssa.Instruction, a
 		// a producer that never closes: ok=false cannot be observed
 		vc.assume(at, okT, "channel is never closed by its producer")
 	}
-	p.drained = vc.define(f.nm(hint+"_drained"), "Bool", ite(okT, final, "true"))
-	p.drainedBlk = in.Block()
+	// ghost state: the producer is known to have finished sending
+	st.heap[vc.ghostBool(p.drainedComp()).Name] = vc.define(f.nm(hint+"_drained"), "Bool", ite(okT, final, "true"))
 	return v, okT
 }
 
@@ -461,18 +466,9 @@ func (f *Frame) selectStmt(x *ssa.Select, at string, st *State) *Val {
 		cs := base.clone()
 		elemT := s.Chan.Type().Underlying().(*types.Chan).Elem()
 		p := f.chanOf(s.Chan)
-		var saved string
-		var savedBlk *ssa.BasicBlock
-		if p != nil {
-			saved, savedBlk = p.drained, p.drainedBlk
-		}
+		// the drained flag lives in the case's copy of the state: the merge below
+		// keeps it only for the case that was chosen
 		v, ok := f.receiveFrom(p, elemT, x, cnd, cs, fmt.Sprintf("%s_r%d", x.Name(), i))
-		if p != nil {
-			// drained only if this case was the one chosen
-			p.drained = vc.define(f.nm(fmt.Sprintf("%s_dr%d", x.Name(), i)), "Bool", ite(eq(idx, fmt.Sprint(i)), p.drained, saved))
-			_ = savedBlk
-			p.drainedBlk = x.Block()
-		}
 		vc.assume(cnd, eq(okAny, ok), "select: ok of the chosen case")
 		res = append(res, &Val{T: v})
 		conds = append(conds, cnd)
@@ -749,10 +745,7 @@ func (f *Frame) chanAtReturn(x *ssa.Return, at string, st *State) {
 		if escapes {
 			continue
 		}
-		drained := "false"
-		if p.drainedBlk != nil && (p.drainedBlk == x.Block() || p.drainedBlk.Dominates(x.Block())) {
-			drained = p.drained
-		}
+		drained := vc.heapOf(st, vc.ghostBool(p.drainedComp()))
 		buffered := "false"
 		if p.cap != "" && p.spec.AtMost > 0 {
 			buffered = fmt.Sprintf("(>= %s %d)", p.cap, p.spec.AtMost)
